@@ -10,6 +10,7 @@
 //!        op = lg/CP/MP/VS   Font::lookup_glyph_index            -> GID.VS
 //!           | ef/FLAGS      Font::set_embedded_image_filter     -> -
 //!           | hi            Font::has_embedded_images           -> 0|1
+//!           | gi            Font::lookup_glyph_image(3, 20, 32) -> none | err:E   (the synthesised image tables are empty)
 //!           | dc            Font::shape(no glyphs) (performs the dotted-circle lookup) -> -
 //!        output  h=...#f=...   (f: each op on a fresh Font configured with the last preceding `ef`)
 //!  F|FONT|op;op;...|probe        history on a real Font (fixture path under tests/fonts, or syn:GSUBSPEC), judged
@@ -722,6 +723,11 @@ fn g_op(font: &mut Font<MapProvider>, op: &str) -> String {
                 "-".to_string()
             }
             "hi" => format!("{}", font.has_embedded_images() as u8),
+            "gi" => match font.lookup_glyph_image(3, 20, BitDepth::ThirtyTwo) {
+                Ok(None) => "none".to_string(),
+                Ok(Some(_)) => "some".to_string(),
+                Err(e) => format!("err:{}", perr(&e)),
+            },
             "dc" => {
                 let _ = font.shape(vec![], tag::LATN, None, &Features::Mask(FeatureMask::empty()), None, false);
                 "-".to_string()
@@ -1249,9 +1255,10 @@ fn gen_g(rng: &mut Rng) -> String {
     let ps = if pairs.is_empty() { "_".to_string() } else { pairs.join(",") };
     let mut ops = vec![];
     for _ in 0..1 + rng.below(8) {
-        match rng.below(10) {
+        match rng.below(11) {
             0 => ops.push("hi".to_string()),
             1 => ops.push("dc".to_string()),
+            10 => ops.push("gi".to_string()),
             2 => ops.push(format!("ef/{}", rng.pick(&[0u8, 4, 8, 16, 32, 28, 60, 127, 36]))),
             _ => {
                 let c = if rng.chance(1, 2) { 0x25CC } else { G_CHARS[rng.below(G_CHARS.len() as u64) as usize].0 };
